@@ -14,7 +14,7 @@ import sqlite3
 from sim import devices
 from sim.canon import Log, dec_table, canon_rows
 from sim.core import outcome
-from sim.devices import (SimTable, SimSourceError, SimSourceAbort,
+from sim.devices import (SimTable, SimSourceError, SimSourceAbort, PipeFault,
                          SOURCE_ERROR_KINDS, INJECTED_SOURCE_FAILURES)
 from sim.loader import load_petl
 
@@ -78,6 +78,11 @@ def gen_case(rng, tier, g):
         rng.shuffle(hdr)           # load with the columns in another order
     if rng.random() < 0.15 and len(hdr) > 1:
         hdr = hdr[:-1]             # load a subset of the columns
+    big = rng.random() < 0.03
+    if big:
+        # loads long enough to cross any internal batching boundary; the
+        # failure indexes are then sampled around 1000 instead of enumerated
+        n = rng.randint(1001, 2300)
     table = [hdr] + _gen_rows(rng, hdr, n)
     other = [list(cols)] + _gen_rows(rng, cols, rng.randint(1, 3))
     prior = _gen_rows(rng, cols, rng.choice([0, 1, 2, 3]))
@@ -99,7 +104,12 @@ def gen_case(rng, tier, g):
             'exc_kinds': rng.sample(SOURCE_ERROR_KINDS,
                                     rng.choice([1, 2, 3])),
             'read_via': rng.choice(['conn', 'name', 'mkcurs', 'cursor']),
-            'attach': rng.random() < 0.3}
+            'attach': rng.random() < 0.3, 'big': big,
+            # where the rows come from: a simulated table, or another table
+            # of the same database read with fromdb through the caller's own
+            # connection (copying a table within one database)
+            'source_kind': rng.choice(['sim', 'sim', 'sim', 'sim',
+                                       'fromdb-same-conn'])}
 
 
 class _Bad(Exception):
@@ -249,7 +259,26 @@ def _one(e, case, path, op, handle, commit, fault, log):
             rows[i] = rows[i] + ['surplus', 'cells']
             expect_exc = sqlite3.ProgrammingError
         src = SimTable(rows, mode='copy')
-        if fault is not None and fault[0] == 'raise':
+        from_db = case.get('source_kind') == 'fromdb-same-conn' and \
+            caller is not None and not (fault and fault[0] == 'badrow')
+        if from_db:
+            # the rows sit in another table of the same database and are read
+            # through the caller's own connection while it is being loaded
+            thdr = rows[0]
+            caller.execute('create table src (%s)' % ', '.join(
+                '"%s"' % c for c in thdr))
+            caller.executemany('insert into src values (%s)' % ','.join(
+                '?' * len(thdr)), [list(r)[:len(thdr)] for r in rows[1:]])
+            caller.commit()
+            inner = e.fromdb(caller, 'select %s from src order by rowid'
+                             % ', '.join('"%s"' % c for c in thdr))
+            if fault is not None and fault[0] == 'raise':
+                src = PipeFault(inner, fault[1], fault[2]
+                                if len(fault) > 2 else 'plain')
+                expect_exc = INJECTED_SOURCE_FAILURES
+            else:
+                src = PipeFault(inner)
+        elif fault is not None and fault[0] == 'raise':
             src.arm(fault[1], kind=fault[2] if len(fault) > 2 else 'plain')
             expect_exc = INJECTED_SOURCE_FAILURES
         source = e.convert(e.wrap(src), 0, lambda v: v) \
@@ -262,6 +291,11 @@ def _one(e, case, path, op, handle, commit, fault, log):
             raised = type(ex)
             msg = str(ex)
         del dbo
+        # the caller's except block is over: whatever the failed call left
+        # suspended (e.g. the reading generator of the pipeline) is finalised
+        # now, before anybody looks at the table
+        source = src = None
+        gc.collect()
         log.add('load', what, raised.__name__ if raised else None)
         if expect_exc is None and raised is not None:
             raise _Bad('unexpected-exception', '%s: raised %s: %s'
@@ -338,9 +372,15 @@ def run_case(case):
     log = Log()
     n = len(case['table']) - 1
     kinds = case.get('exc_kinds') or ['plain']
-    faults = [None] + [['raise', i, kinds[i % len(kinds)]]
-                       for i in range(0, n + 2)] + \
-        [['badrow', i] for i in range(1, n + 1)]
+    if case.get('big'):
+        idx = sorted(set([0, 1, 999, 1000, 1001, 1002, n // 2, n, n + 1]))
+        faults = [None] + [['raise', i, kinds[j % len(kinds)]]
+                           for j, i in enumerate(idx) if i <= n + 1] + \
+            [['badrow', i] for i in (1001, n) if i <= n]
+    else:
+        faults = [None] + [['raise', i, kinds[i % len(kinds)]]
+                           for i in range(0, n + 2)] + \
+            [['badrow', i] for i in range(1, n + 1)]
     nruns = 0
     _SCHEMA[0] = case.get('schema')
     fired = {'source-raise': 0, 'malformed-row': 0}
@@ -413,7 +453,7 @@ def shrink_candidates(case):
         c['prior'] = c['prior'][:-1]
         yield c
     for k, v in (('prefix', 'none'), ('pipeline', False), ('attach', False),
-                 ('schema', None)):
+                 ('schema', None), ('source_kind', 'sim')):
         if case[k] != v:
             c = copy.deepcopy(case)
             c[k] = v
